@@ -48,6 +48,7 @@ type E struct {
 	active    map[string]bool
 	depth     int
 	sawAbsorb bool           // a cycle was absorbed by a default or a resolver during this evaluation
+	sawAltAbsorb bool        // ... by the alternative operator, which looks a name up without evaluating it
 	evalCount map[string]int // how often each root setting was evaluated during this evaluation
 	evalLog   map[string][]string // the outcomes of those evaluations, in order
 	force     bool           // evaluate the contents of containers reached through references
@@ -554,6 +555,7 @@ func (e *E) exists(n Name) (bool, EKind) {
 	} else {
 		// a reference that is still being evaluated: the cycle is absorbed by the operator
 		e.sawAbsorb = true
+		e.sawAltAbsorb = true
 	}
 	o, ok := e.fromResolvers(path)
 	if ok && o.E == EAny {
@@ -811,6 +813,7 @@ func (e *E) logEval(path string, o Outcome) {
 // begin starts the model's view of one library call.
 func (e *E) begin(force bool) {
 	e.sawAbsorb = false
+	e.sawAltAbsorb = false
 	e.evalCount = map[string]int{}
 	e.evalLog = map[string][]string{}
 	e.force = force
